@@ -168,6 +168,11 @@ func (m *Manager) handlePotentialData(ctx context.Context, bz []byte, daHeight u
 		m.logger.Debug("ignoring empty signed data, daHeight: ", daHeight)
 		return
 	}
+	if signedData.Metadata == nil {
+		// sync ignores data without metadata anyway; its height cannot even be read
+		m.logger.Debug("ignoring signed data without metadata, daHeight: ", daHeight)
+		return
+	}
 
 	// Early validation to reject junk data
 	if !m.isValidSignedData(&signedData) {
